@@ -188,3 +188,14 @@ impl VxWords {
     #[verifier::external_body]
     pub fn count(self) -> (r: usize) ensures r == word_count(self.src()) { unimplemented!() }
 }
+// <[String]>::contains(&String) / <[&str]>::contains(&&str): element comparison is by content (method_rename contains -> vx_contains_str)
+pub open spec fn strs_contain(s: Seq<Str>, x: Seq<char>) -> bool { exists|i: int| 0 <= i < s.len() && (#[trigger] s[i])@ == x }
+pub trait VxContainsStr<X> { fn vx_contains_str(&self, x: X) -> bool; }
+impl<'a> VxContainsStr<&'a Str> for [Str] {
+    #[verifier::external_body]
+    fn vx_contains_str(&self, x: &'a Str) -> (r: bool) ensures r == strs_contain(self@, x@) { unimplemented!() }
+}
+impl<'a, 'b, 'c, const N: usize> VxContainsStr<&'a &'b Str> for [&'c Str; N] {
+    #[verifier::external_body]
+    fn vx_contains_str(&self, x: &'a &'b Str) -> (r: bool) { unimplemented!() }
+}
